@@ -23,7 +23,7 @@ def dump (s : St) : String :=
     ["lps", toString lpl.length] ++ lpl.map showLP ++
     ["buckets", toString s.buckets.length] ++ s.buckets.map (fun e => s!"{e.1} {e.2}") ++
     ["bank", toString bank.length] ++ bankToks ++
-    ["accu", toString s.accu, "height", toString s.height])
+    ["accu", toString s.accu, "height", toString s.height, "lpcur", toString s.lpCur])
 
 /-- parse the observation part of a `chk` line (same token format as `dump`) -/
 partial def parsePools : Nat → List String → AList Pool → Option (AList Pool × List String)
@@ -65,7 +65,7 @@ def parseDump (ts : List String) : Option St :=
         | "bank" :: n :: ts => do
           let (bank, ts) ← parseBank (← parseNat n) ts []
           match ts with
-          | ["accu", a, "height", h] => some { bank := bank, pools := pools, lps := lps, buckets := buckets, accu := ← parseNat a, height := ← parseInt h }
+          | ["accu", a, "height", h, "lpcur", c] => some { bank := bank, pools := pools, lps := lps, buckets := buckets, accu := ← parseNat a, height := ← parseInt h, lpCur := ← parseNat c }
           | _ => none
         | _ => none
       | _ => none
@@ -99,6 +99,8 @@ def applyCfg (s : St) : List String → Option St
       let on ← parseBool b
       let l := s.params.marginPools.filter (· != sym)
       some { s with params := { s.params with marginPools := if on then sym :: l else l } }
+  | ["lp", b, mx, asset, cur] => do
+      some { s with params := { s.params with lpActive := ← parseBool b, lpMax := ← parseNat mx, lpAsset := asset }, lpCur := ← parseNat cur }
   | ["removalthreshold", d] => do some { s with params := { s.params with removalThreshold := ← parseDec d } }
   | ["poolmargin", sym, a, b, c, d] => do
       -- what x/margin leaves on a pool: liabilities are bookkeeping only, custody is carved out of the
@@ -145,6 +147,7 @@ def step (s : St) (toks : List String) : St × String :=
       | _, _ => (s, "bad-op")
   | ["decom", a, sym] => resR (decommissionPool s a sym) s
   | ["bucket", a, d, n] => match parseNat n with | some n => resR (addToBucket s a d n) s | none => (s, "bad-op")
+  | ["lpbegin", n] => match parseNat n with | some n => resHook (lpBeginBlock s n) s | none => (s, "bad-op")
   | ["endblock"] => resHook (endBlocker s) s
   | ["epoch"] => resHook (afterEpochEnd s) s
   | ["obs"] => (s, dump s)
